@@ -23,6 +23,50 @@ def hit(kind):
     return False
 
 
+class PW:
+    """power-loss emulation: an explicit user-space buffer (like io.BufferedWriter) over an unbuffered raw file;
+    only bytes handed to the OS before the last fsync are durable"""
+    BUF = 8192
+    by_fd = {}
+
+    def __init__(self, raw, name):
+        self.raw, self.name, self.buf, self.os_len, self.durable = raw, name, b"", 0, 0
+        PW.by_fd[raw.fileno()] = self
+
+    def _push(self, data):
+        self.raw.write(data)
+        self.os_len += len(data)
+
+    def write(self, b):
+        b = bytes(b)
+        if len(self.buf) + len(b) > self.BUF:
+            self._push(self.buf)
+            self.buf = b""
+            if len(b) > self.BUF:
+                self._push(b)
+                return len(b)
+        self.buf += b
+        return len(b)
+
+    def flush(self):
+        self._push(self.buf)
+        self.buf = b""
+
+    def fileno(self):
+        return self.raw.fileno()
+
+    def close(self):
+        self.flush()
+        self.raw.close()
+
+    def __enter__(self):
+        return self
+
+    def __exit__(self, *a):
+        self.close()
+        return False
+
+
 class W:
     """file proxy: every write is an IO event; a crash inside a write leaves a prefix of the chunk"""
 
@@ -68,7 +112,14 @@ _replace, _rename, _fsync = os.replace, os.rename, os.fsync
 armed = [False]
 
 
+durable_of = {}
+
+
 def my_open(file, mode_="r", *a, **k):
+    if armed[0] and mode == "powerloss" and any(c in mode_ for c in "wax+"):
+        pw = PW(_open(file, mode_, buffering=0), os.path.basename(str(file)))
+        durable_of[os.path.abspath(str(file))] = pw
+        return pw
     if armed[0] and any(c in mode_ for c in "wax+"):
         if hit(f"open:{os.path.basename(str(file))}:{mode_}"):
             os._exit(17)
@@ -77,6 +128,16 @@ def my_open(file, mode_="r", *a, **k):
 
 
 def my_replace(a, b, *x, **k):
+    if armed[0] and mode == "powerloss":
+        pw = durable_of.get(os.path.abspath(str(a)))
+        r = _replace(a, b, *x, **k)
+        if pw is not None:
+            # power fails right after the rename: un-synced bytes of the renamed file are lost
+            with _open(b, "r+b") as fh:
+                fh.truncate(pw.durable)
+        print("POWERLOSS durable=%d total=%d" % (pw.durable if pw else -1, pw.os_len + len(pw.buf) if pw else -1))
+        sys.stdout.flush()
+        os._exit(17)
     if armed[0] and hit(f"replace:{os.path.basename(str(a))}->{os.path.basename(str(b))}"):
         os._exit(17)
     return _replace(a, b, *x, **k)
@@ -89,6 +150,11 @@ def my_rename(a, b, *x, **k):
 
 
 def my_fsync(fd):
+    if armed[0] and mode == "powerloss":
+        pw = PW.by_fd.get(fd)
+        if pw is not None:
+            pw.durable = pw.os_len
+        return _fsync(fd)
     if armed[0] and hit("fsync"):
         os._exit(17)
     return _fsync(fd)
@@ -108,7 +174,8 @@ def ll(x):
 
 
 np.random.seed(5)
-s = Sampler(pt, ll, n_dim=2, n_particles=8, clustering=False)
+big = mode == "powerloss"
+s = Sampler(pt, ll, n_dim=4 if big else 2, n_particles=300 if big else 8, clustering=False)
 s._core._initialize_fresh()
 s.sample()
 s.save_state("ckpt.state")          # the OLD complete checkpoint (not instrumented)
